@@ -307,6 +307,12 @@ Definition ts_new (a : ts_args) : tres series :=
   TOk (mk_series (s_len a) dt_ps t0_ps dur_ps (to_float rate') uo)
   end.
 
+(* the data enter TimeSeries.__init__ only through the length of their LAST axis
+   (np.asarray(data).shape[-1], self.data.shape[-1], time.shape[-1] comparisons): a call with data of
+   shape sh is the call with s_len := last element of sh *)
+Definition with_shape (sh : list Z) (a : ts_args) : ts_args :=
+  mk_ts_args (last sh 0) (s_t0 a) (s_si a) (s_rate a) (s_duration a) (s_time a) (s_unit a).
+
 (* TimeSeries.time: UniformTime(length=len, t0=self.t0, sampling_interval=self.sampling_interval,
                                 time_unit=self.time_unit) *)
 Definition series_unit (s : series) : unit := match se_unit s with Some u => u | None => Us end.
